@@ -382,6 +382,9 @@ pub enum Mp4WriterError {
     AudioNotEnabled,
     /// Computed sample duration overflowed a `u32`.
     DurationOverflow,
+    /// A parameter set of the first keyframe does not fit the 16-bit length field of the
+    /// decoder configuration record.
+    ParameterSetTooLarge,
     /// The writer has already been finalised.
     AlreadyFinalized,
 }
@@ -407,6 +410,7 @@ impl fmt::Display for Mp4WriterError {
             Mp4WriterError::InvalidOpusPacket => write!(f, "invalid Opus packet"),
             Mp4WriterError::AudioNotEnabled => write!(f, "audio track not enabled"),
             Mp4WriterError::DurationOverflow => write!(f, "sample duration overflow"),
+            Mp4WriterError::ParameterSetTooLarge => write!(f, "parameter set too large"),
             Mp4WriterError::AlreadyFinalized => write!(f, "writer already finalised"),
         }
     }
@@ -545,6 +549,16 @@ impl<Writer: Write> Mp4Writer<Writer> {
                     VideoCodec::Vp9 => Mp4WriterError::FirstFrameMissingVp9Config,
                     _ => Mp4WriterError::FirstFrameMissingSpsPps,
                 });
+            }
+            // avcC / hvcC store each parameter set behind a 16-bit length.
+            let too_large = |nal: &Vec<u8>| nal.len() > u16::MAX as usize;
+            let oversized = match &config {
+                Some(VideoConfig::Avc(c)) => too_large(&c.sps) || too_large(&c.pps),
+                Some(VideoConfig::Hevc(c)) => too_large(&c.vps) || too_large(&c.sps) || too_large(&c.pps),
+                _ => false,
+            };
+            if oversized {
+                return Err(Mp4WriterError::ParameterSetTooLarge);
             }
             self.video_config = config;
         }
